@@ -178,7 +178,7 @@ fn case_main(cfgs: &str, faults: &str) {
     std::fs::write(format!("{}/std0", tmp), b"").unwrap();
     let own: Vec<i32> = (0..3)
         .map(|i| {
-            let f = std::fs::OpenOptions::new().read(i == 0).write(i != 0).create(true).open(format!("{}/std{}", tmp, i)).unwrap();
+            let f = std::fs::OpenOptions::new().read(i == 0).write(i != 0).create(i != 0).open(format!("{}/std{}", tmp, i)).unwrap();
             let fd = std::os::unix::io::IntoRawFd::into_raw_fd(f);
             let keep = dup_cloexec(fd as usize);
             kit::raw_close(fd);
